@@ -110,8 +110,9 @@ Qed.
 
 (* (T) RepeatableIterator.__init__ / __next__ as translated on this run *)
 Theorem C15_translated_repeatable_is_model : forall {A} container (base : list A) (s : rit (A:=A)),
-  rit_init_gen container base = rit_init container base /\ rit_next_gen s = rit_next s.
-Proof. exact (fun A container base s => conj (gen_rit_init_spec container base) (gen_rit_next_spec s)). Qed.
+  rit_init_gen container base = rit_init container base /\ rit_next_gen s = rit_next s /\
+  rit_iter_gen s = rit_iter s.
+Proof. exact (fun A container base s => conj (gen_rit_init_spec container base) (conj (gen_rit_next_spec s) (gen_rit_iter_spec s))). Qed.
 
 (* buffered shuffling: WHENEVER it returns, for every buffer size and EVERY oracle, the
    output is a permutation of the input ... *)
@@ -163,6 +164,13 @@ Theorem C15_repeatable_replays_first_pass : forall {A} (container : bool) (base 
   rit_trace n (rit_init container base) = firstn n (passes (S m) base).
 Proof. exact @repeatable_replays. Qed.
 
+(* ... wherever iter(it) is called in between (a new for loop after a break, islice then list,
+   next then list): a pass consumed in pieces is still one pass *)
+Theorem C15_repeatable_split_passes : forall {A} (container : bool) (base : list A) (ops : list bool) m,
+  (count_occ Bool.bool_dec ops true <= m)%nat ->
+  rit_run ops (rit_init container base) = firstn (count_occ Bool.bool_dec ops true) (passes (S m) base).
+Proof. exact @repeatable_split_passes. Qed.
+
 Theorem C15_repeatable_whole_passes : forall {A} (container : bool) (base : list A) k,
   rit_trace (k * S (length base)) (rit_init container base) = passes k base.
 Proof. exact @repeatable_whole_passes. Qed.
@@ -205,4 +213,5 @@ Print Assumptions C15_buffered_shuffle_perm.
 Print Assumptions C15_shuffled_pass_visits_each_once.
 Print Assumptions C15_shuffle_repeat_prefix_exact.
 Print Assumptions C15_repeatable_replays_first_pass.
+Print Assumptions C15_repeatable_split_passes.
 Print Assumptions C15_repeatable_whole_passes.
